@@ -366,10 +366,12 @@ def execute(ctx, case: dict) -> None:
     except Exception as ex:  # pylint: disable=broad-except
         raise RuntimeError(f"generator produced text the library rejects: {case['text']!r}: {ex}") from ex
     texts = []
+    alias = {"nxos": ["nxos", "cisco_nxos", "cnx"], "ios": ["ios", "cisco_ios"]}
+    pick = case.get("alias", 0)
     try:
-        obj.platform = target
+        obj.platform = alias[target][pick % len(alias[target])]  # the documented aliases mean the same platform
         texts.append(obj.line)
-        obj.platform = platform
+        obj.platform = alias[platform][pick % len(alias[platform])]
         obj.platform = target
         texts.append(obj.line)
     except Exception:  # pylint: disable=broad-except
@@ -440,7 +442,8 @@ def gen_case(rng):
             kw["group_by"] = heading
         if rng.random() < 0.3:
             kw["input"] = ["interface Ethernet1/1"]
-        return {"k": "acl", "platform": platform, "text": text, "members": members, "kwargs": kw}
+        return {"k": "acl", "platform": platform, "text": text, "members": members, "kwargs": kw,
+                "alias": rng.choice([0, 0, 1, 2])}
     if roll < 0.7:
         ace = grammar.gen_ace(rng, platform, version, foreign=False, allow_multi=False, ws=False, max_k=3)
         case = {"k": "ace", "platform": platform, "text": ace["text"], "kwargs": kw}
